@@ -914,6 +914,10 @@ func (k *logSink) Write(p []byte) (int, error) {
 	if os.Getenv("VERIF_SHOWLOG") != "" {
 		fmt.Fprint(os.Stderr, "    LOG ", line)
 	}
+	if os.Getenv("VERIF_JOURNAL_LOG") != "" {
+		// (debugging aid only: changes the journal)
+		k.h.s.Logf("mutagen", "%s", strings.TrimSpace(line))
+	}
 	return len(p), nil
 }
 
